@@ -1,6 +1,9 @@
 import SeqVerif.Base.Proto
 import SeqVerif.Model.C03Codec
 import SeqVerif.Model.C03Lids
+import SeqVerif.Model.C03Ids
+import SeqVerif.Model.C03Tokens
+import Std.Data.HashMap
 /-!
 Driver for C03.  Lists: `,` inside a posting list / chunk, `;` between chunks / tokens, `|` between fields / blocks,
 `-` = empty list at any level, `_` = no chunks at all.
@@ -14,6 +17,11 @@ Driver for C03.  Lists: `,` inside a posting list / chunk, `;` between chunks / 
   lidsgen <cap> <oldToNew> <fields>              -> ok <min:max:cont:last:chunks|...>
   lidstable <cap> <oldToNew> <fields>            -> ok <mins> <maxs> <conts> ext=<ext1:ext2,...> loaded=<0|1>
   lidsiter <asc|desc> <cap> <tid> <minLID> <maxLID> <oldToNew> <fields>  -> ok <lids> | panic <site>
+  ids.blocks <size> <ids mid:rid,...> <positions>  -> ok <ext mid:rid,...> <hexMIDs/hexRIDs/hexPos|...>
+  ids.query <per> <ids> <positions> <lid@mid:rid;...>  -> ok <mid:rid:pos:loe;...>   (x = panic)
+  tokens.gen <old|new> <rbs> <fields: hex,hex|...>   -> ok <field:isStart:total:startTID:hex,hex|...> | panic
+  tokens.table <rbs> <base> <fields>               -> ok entries=<field:startIndex:startTID:blockIndex:valCount:min:max;...> vals=<hex,...> | panic
+  tokens.select <hint> <minVal> <maxVals>          -> ok <l> <r>
 -/
 open SV SV.Proto SV.C03
 
@@ -35,6 +43,36 @@ def fmtExcept (r : Except String (List Nat)) : String :=
   match r with
   | .ok l => s!"ok {fmtNats l}"
   | .error e => s!"panic {e}"
+
+def parseID (s : String) : Option ID :=
+  match s.splitOn ":" with
+  | [a, b] => do pure ((← a.toNat?), (← b.toNat?))
+  | _ => none
+
+def parseIDs (s : String) : Option (List ID) := (splitList s).mapM parseID
+
+def fmtID (x : ID) : String := s!"{x.1}:{x.2}"
+
+def mkPosMap (ids : List ID) (pos : List Nat) : Std.HashMap ID Nat :=
+  (ids.zip pos).foldl (fun m p => m.insert p.1 p.2) {}
+
+def posOfMap (m : Std.HashMap ID Nat) (id : ID) : Nat := (m.get? id).getD 18446744073709551615
+
+def fmtOptNat (o : Option Nat) : String := match o with | some v => toString v | none => "x"
+
+/-- tokens are written `x<hex>` (`x` = the empty token) -/
+def xhex? (s : String) : Option Tok := if s.startsWith "x" then hexGo (s.drop 1).toString.toList else none
+
+def fmtX (t : Tok) : String := "x" ++ (if t.isEmpty then "" else fmtHex t)
+
+def parseTokFields (s : String) : Option (List (List Tok)) :=
+  (splitList s "|").mapM fun f => (splitList f).mapM xhex?
+
+def fmtTBlock (b : TBlock) : String :=
+  s!"{b.field}:{fmtBool b.isStart}:{b.totalSize}:{b.startTID}:{fmtList fmtX b.tokens}"
+
+def fmtEntry (e : TEntry) : String :=
+  s!"{e.field}:{e.startIndex}:{e.startTID}:{e.blockIndex}:{e.valCount}:{e.minVal.map fmtX |>.getD "-"}:{fmtX e.maxVal}"
 
 def step (line : String) : String :=
   match fields line with
@@ -95,6 +133,51 @@ def step (line : String) : String :=
       else if dir = "asc" then fmtExcept (iterAsc bs (tableOf bs) tid mn mx)
       else "bad-op"
     | _, _, _, _, _, _ => "bad-op"
+  | ["ids.blocks", size, ids, pos] =>
+    match size.toNat?, parseIDs ids, natList? pos with
+    | some size, some ids, some pos =>
+      let m := mkPosMap ids pos
+      let bs := writeIDs size ids (posOfMap m)
+      s!"ok {fmtList (fun (b : IDBlockDisk) => fmtID b.ext) bs} {fmtList (fun (b : IDBlockDisk) => s!"{fmtHex b.mids}/{fmtHex b.rids}/{fmtHex b.pos}") bs "|"}"
+    | _, _, _ => "bad-op"
+  | ["ids.query", per, ids, pos, qs] =>
+    match per.toNat?, parseIDs ids, natList? pos, (splitList qs ";").mapM (fun q => match q.splitOn "@" with
+        | [l, i] => do pure ((l.startsWith "L"), (← (l.dropWhile (· == 'L')).toNat?), (← parseID i))
+        | _ => none) with
+    | some per, some ids, some pos, some qs =>
+      let m := mkPosMap ids pos
+      let bs := writeIDs per ids (posOfMap m)
+      let t := idsTableOf bs ids.length
+      let one := fun (q : Bool × Nat × ID) =>
+        let loe := match lessOrEqual per t bs q.2.1 q.2.2 with | some b => fmtBool b | none => "x"
+        if q.1 then s!"-:-:-:{loe}" else
+        s!"{fmtOptNat (getMID per bs q.2.1)}:{fmtOptNat (getRID per bs q.2.1)}:{fmtOptNat (getPos per bs q.2.1)}:{loe}"
+      s!"ok {fmtList one qs ";"}"
+    | _, _, _, _ => "bad-op"
+  | ["tokens.gen", ver, rbs, fs] =>
+    match rbs.toNat?, parseTokFields fs with
+    | some rbs, some fs =>
+      match genTokenBlocks (if ver = "old" then bsOld else bsNew) rbs fs with
+      | .ok bs => s!"ok {fmtList fmtTBlock bs "|"}"
+      | .error _ => "panic"
+    | _, _ => "bad-op"
+  | ["tokens.table", rbs, base, fs] =>
+    match rbs.toNat?, base.toNat?, parseTokFields fs with
+    | some rbs, some base, some fs =>
+      match genTokenBlocks bsNew rbs fs with
+      | .ok bs =>
+        let w := writeTokens rbs base bs
+        let n := fs.flatten.length
+        let vals := (List.range n).map fun i => match getValByTID base w (i + 1) with | some v => fmtX v | none => "?"
+        s!"ok entries={fmtList fmtEntry w.entries ";"} vals={fmtList id vals}"
+      | .error _ => "panic"
+    | _, _, _ => "bad-op"
+  | ["tokens.select", hint, mn, mxs] =>
+    match xhex? hint, xhex? mn, (mxs.splitOn ",").mapM xhex? with
+    | some hint, some mn, some mxs =>
+      let r := selectEntries hint mn mxs
+      if r.1 ≥ r.2 then "ok empty" else s!"ok {r.1} {r.2}"
+    | _, _, _ => "bad-op"
   | _ => "bad-op"
 
 def main : IO Unit := SV.Proto.main step
